@@ -77,20 +77,48 @@ def run_model(cases, artifacts=True):
     for i, c in enumerate(cases):
         shards[i % len(shards)].append(c)
 
+    def text_of(cs):
+        return "".join(lexdef.case_text(c.name, c.d, [(ct, cps) for ct, cps, _ in c.inputs]) for c in cs)
+
     def work(shard):
-        t = "".join(lexdef.case_text(c.name, c.d, [(ct, cps) for ct, cps, _ in c.inputs]) for c in shard)
-        return run_lexmodel(t, artifacts=artifacts)
+        try:
+            return run_lexmodel(text_of(shard), artifacts=artifacts, timeout=600, mem_gb=4)
+        except ModelResource:
+            return None
     with ThreadPoolExecutor(len(shards)) as ex:
         outs = list(ex.map(work, shards))
+    retry = [c for shard, out in zip(shards, outs) if out is None for c in shard]
+    if retry:
+        # a shard ran out of time or memory: every definition of it alone, with a small budget; those that still
+        # exceed it are left without a model result (c.model_skipped) and are not compared
+        def one(c):
+            try:
+                return run_lexmodel(text_of([c]), artifacts=artifacts, timeout=40, mem_gb=3)
+            except ModelResource as e:
+                c.model_skipped = str(e)
+                return ""
+        with ThreadPoolExecutor(NPROC) as ex:
+            outs = [o for o in outs if o is not None] + list(ex.map(one, retry))
+    byidx = {c.idx: c for c in cases}
     for out in outs:
+        if not out:
+            continue
         for did, body in split_model_output(out).items():
-            idx = int(did[1:])
-            for c in cases:
-                if c.idx == idx:
-                    c.model = parse_dump(body)
+            c = byidx.get(int(did[1:]))
+            if c is not None:
+                c.model = parse_dump(body)
+    nskip = 0
     for c in cases:
         if c.model is None:
-            raise Broken("model-driver", "no model output for %s" % c.name)
+            if getattr(c, "model_skipped", None):
+                nskip += 1
+                c.model = {"panic": "model-resource-limit", "wf": False, "runs": {}, "skipped": True}
+            else:
+                raise Broken("model-driver", "no model output for %s" % c.name)
+    if nskip > max(3, len(cases) // 25):
+        raise Broken("model-driver", "the extracted model exceeded its time / memory budget on %d of %d definitions"
+                     % (nskip, len(cases)))
+    return nskip
 
 
 def run_impl(cases, workdir, batch_size=6, profile="debug", compile_timeout=100, extra_parens=None,
